@@ -43,13 +43,12 @@ def initP : Prs (St × ATraj) := do
   if t = "se3" then do
     let ps ← repP poseP n
     let st ← stampsP
-    pure (initSe3 ps st, ⟨ps.zipIdx.map (fun (p, i) => (p, st.bind (·[i]?))), st.isSome, false⟩)
+    pure (initSe3 ps st, ATraj.init ps st)
   else if t = "pq" then do
     let l ← repP (do let p ← v3P; let w ← ratP; let x ← ratP; let y ← ratP; let z ← ratP; pure (p, quatToRot w x y z)) n
     let st ← stampsP
     let ps : List P := l.map (fun (p, r) => ⟨r, p⟩)
-    pure (initPosQuat (l.map (·.1)) (l.map (·.2)) st,
-          ⟨ps.zipIdx.map (fun (p, i) => (p, st.bind (·[i]?))), st.isSome, false⟩)
+    pure (initPosQuat (l.map (·.1)) (l.map (·.2)) st, ATraj.init ps st)
   else failure
 
 def opP : Prs Op := do
